@@ -76,7 +76,7 @@ const SHIM_METHODS: [&str; 36] = [
 ];
 
 // path calls renamed to free shim functions
-const SHIM_PATHS: [(&str, &str); 13] = [
+const SHIM_PATHS: [(&str, &str); 15] = [
     ("metadata", "rws_metadata"),
     ("File::open", "rws_file_open"),
     ("IpAddr::from_str", "rws_ipaddr_from_str"),
@@ -90,7 +90,22 @@ const SHIM_PATHS: [(&str, &str); 13] = [
     ("io::Cursor::new", "rws_cursor_new"),
     ("Cursor::new", "rws_cursor_new"),
     ("String::from", "rws_string_from"),
+    ("env::args", "rws_env_args"),
+    ("std::fs::read_to_string", "rws_fs_read_to_string"),
 ];
+
+// R-WORLD: the functions that read or write the process environment (the one piece of global state of the start-up code) get
+// one more parameter, the ghost world `rws_w: &mut Ghost<RwsWorld>`, and every call of such a function passes it on.  The list
+// of function names comes from the unit definition (RWSX_WORLD, comma separated); nothing else about the functions changes.
+fn world_list() -> Vec<String> {
+    match std::env::var("RWSX_WORLD") {
+        Ok(v) => v.split(',').map(|x| x.trim().to_string()).filter(|x| !x.is_empty()).collect(),
+        Err(_) => vec![],
+    }
+}
+fn in_world(name: &str) -> bool {
+    world_list().iter().any(|w| w == name || name.ends_with(&format!("::{}", w)))
+}
 
 impl Rw {
     fn new(fn_tag: &str) -> Self {
@@ -450,6 +465,9 @@ impl Rw {
         let c = format_ident!("__rws_fc{}", self.tmp_no);
         let lm = self.loop_marker(k);
         let e = &it.receiver;
+        // a point after the search loop where its index variable is still in scope
+        let nfind = self.alloc("find_loop");
+        let after = self.marker("after", "find_loop", nfind);
         self.log("R-FIND", m.method.span(), format!(".iter().find(closure) -> indexed loop #{}", k));
         Some(parse_quote! {
             {
@@ -466,6 +484,7 @@ impl Rw {
                     }
                     #i += 1;
                 }
+                #after
                 #r
             }
         })
@@ -631,13 +650,20 @@ impl VisitMut for Rw {
             Expr::Call(c) => {
                 if let Expr::Path(p) = &*c.func {
                     let ps = path_string(&p.path);
+                    let mut final_name = ps.clone();
+                    let sp0 = p.path.segments[0].ident.span();
                     for (from, to) in SHIM_PATHS.iter() {
                         if ps == *from {
-                            self.log("R-SHIM", p.path.segments[0].ident.span(), format!("{}() -> {}()", from, to));
+                            self.log("R-SHIM", sp0, format!("{}() -> {}()", from, to));
                             let id = format_ident!("{}", to);
                             c.func = Box::new(parse_quote! { #id });
+                            final_name = to.to_string();
                             break;
                         }
+                    }
+                    if in_world(&final_name) {
+                        self.log("R-WORLD", sp0, format!("{}(..) -> {}(.., rws_w)", final_name, final_name));
+                        c.args.push(parse_quote! { rws_w });
                     }
                 }
             }
@@ -913,6 +939,14 @@ fn emit_fn(
                 }
             }
         }
+    }
+    let qual_name = match self_ty {
+        Some(t) => format!("{}::{}", t, name),
+        None => name.clone(),
+    };
+    if in_world(&qual_name) {
+        sig.inputs.push(parse_quote! { rws_w: &mut Ghost<RwsWorld> });
+        rw.rules.push(RuleApp { rule: "R-WORLD", line: line_of(sig.ident.span()), detail: format!("fn {} gets the ghost world parameter rws_w", qual_name) });
     }
     let text;
     if mode == "assume" {
